@@ -128,7 +128,7 @@ Definition take_last {A} (k : nat) (l : list A) : list A := skipn (length l - k)
 
 Definition relativize (n o : name) : res name :=
   if is_subdomain n o then
-    (* Name(self.labels[: len(self.labels) - len(origin.labels)]) (after fix c950a22; the
+    (* Name(self.labels[: len(self.labels) - len(origin.labels)]) (after fix 64e88ce; the
        earlier self[: -len(origin)] sliced to the empty tuple for the empty origin) *)
     mk_name (drop_last (length o) n)
   else Ok n.
